@@ -8,15 +8,17 @@ RECURSIVE AliveAfter(_, _, _)
 AliveAfter(ops, i, a) == IF i > Len(ops) THEN a
                          ELSE LET o == ops[i] IN
                               AliveAfter(ops, i + 1, IF o.op = "hb" THEN [a EXCEPT ![o.n] = TRUE]
-                                                     ELSE IF o.op \in {"lapse", "expire"} THEN [a EXCEPT ![o.n] = FALSE] ELSE a)
+                                                     ELSE IF o.op \in {"lapse", "expire", "startlapse"} THEN [a EXCEPT ![o.n] = FALSE] ELSE a)
 Row(e, n) == e.final[CHOOSE i \in 1..Len(e.final) : e.final[i].node = n]
 Down(r) == \A i \in 1..Len(r.wls) : ~r.wls[i].running /\ ~r.wls[i].healthy
-LastLapse(e, n) == LET I == {i \in 1..Len(e.ops) : e.ops[i].n = n /\ e.ops[i].op \in {"lapse", "expire"}} IN
+LastLapse(e, n) == LET I == {i \in 1..Len(e.ops) : e.ops[i].n = n /\ e.ops[i].op \in {"lapse", "expire", "startlapse"}} IN
                    IF I = {} THEN "none" ELSE e.ops[CHOOSE i \in I : \A j \in I : j <= i].op
-StartedBefore(e, n) == LET S == {i \in 1..Len(e.ops) : e.ops[i].op = "start"}
-                           L == {i \in 1..Len(e.ops) : e.ops[i].n = n /\ e.ops[i].op \in {"lapse", "expire"}} IN
+StartedBefore(e, n) == LET S == {i \in 1..Len(e.ops) : e.ops[i].op \in {"start", "startlapse"}}
+                           L == {i \in 1..Len(e.ops) : e.ops[i].n = n /\ e.ops[i].op \in {"lapse", "expire", "startlapse"}} IN
                        IF S = {} \/ L = {} THEN "n/a"
-                       ELSE IF (CHOOSE i \in S : TRUE) < (CHOOSE i \in L : \A j \in L : j <= i) THEN "watcher-started-before-lapse" ELSE "watcher-started-after-lapse"
+                       ELSE IF (CHOOSE i \in S : TRUE) < (CHOOSE i \in L : \A j \in L : j <= i) THEN "watcher-started-before-lapse"
+                       ELSE IF (CHOOSE i \in S : TRUE) = (CHOOSE i \in L : \A j \in L : j <= i) THEN "lapse-during-the-watcher's-initial-scan"
+                       ELSE "watcher-started-after-lapse"
 TraceInit == l = 1 /\ alive = [n \in Nodes |-> TRUE] /\ wls = [n \in Nodes |-> <<>>] /\ watcher = "off" /\ pending = {} /\ scanned = {} /\ hist = <<>>
 TraceNext ==
     /\ l <= Len(Trace)
